@@ -891,6 +891,9 @@ func (s *State) evalIdentifier(node *ast.Identifier) object.Object {
 	}
 	val, ok := s.env.Get(name)
 	if !ok {
+		// Depending on a name that isn't bound (yet) is depending on outer state too: the error can be turned
+		// into a value by catch() and that value must not be remembered once the name gets defined.
+		s.env.TriggerNoCache()
 		return s.NewError("identifier not found: " + node.Literal())
 	}
 	return val
